@@ -17,6 +17,14 @@ class RecT:
         return self.name
 
 
+class AdtT(RecT):
+    """algebraic data type; branches: list of (branch name, [field types]); values are tuples ("$Branch", v1, ...)"""
+
+    def __init__(self, name, branches):
+        RecT.__init__(self, name, [])
+        self.branches = branches
+
+
 def tname(t):
     return t if isinstance(t, str) else t.name
 
@@ -44,6 +52,20 @@ class RecInit:
     def __init__(self, args, ty): self.args, self.ty = args, ty
 
 
+class AdtInit(RecInit):
+    """ADT branch constructor / pattern $Branch(args)"""
+
+    def __init__(self, branch, args, ty):
+        RecInit.__init__(self, args, ty)
+        self.branch = branch
+
+
+class Or:
+    """disjunction of conjunctions of constraints over bound variables: (c1, c2 ; c3)"""
+
+    def __init__(self, alts): self.alts = alts
+
+
 class Agg:
     def __init__(self, op, target, body, ty, locals_):
         self.op, self.target, self.body, self.ty, self.locals = op, target, body, ty, locals_
@@ -68,6 +90,7 @@ class Rule:
         self.order = order or list(range(len(body)))
         self.plan = None      # text appended after the clause
         self.tags = set()
+        self.extra_heads = []  # further head atoms of a multi-head clause (same body)
 
 
 class Rel:
@@ -143,10 +166,17 @@ class Feat:
         self.idb_facts = True        # IDB relations may also carry facts (written after their rules)
         self.ineq_clusters = True    # several inequalities on the attributes of one atom
         self.casts = True            # as(x, unsigned) / as(x, number) in comparisons
+        self.adts = False            # algebraic data types (construction and destructuring)
+        self.ranges = False          # range(lo, hi[, step]) generators
+        self.disjunctions = False    # (c1 ; c2) over bound variables
+        self.multihead = False       # h1(..), h2(..) :- body.
         self.__dict__.update(kw)
 
 
 def gen_value(ch, ty, feat, small_only=False):
+    if isinstance(ty, AdtT):
+        bname, ftys = ch.choice(ty.branches)
+        return ("$" + bname,) + tuple(gen_value(ch, f, feat, small_only) for f in ftys)
     if isinstance(ty, RecT):
         if ch.bool(0.15):
             return None
@@ -199,6 +229,15 @@ class Gen:
                 rt = RecT("Rec%d" % i, fields)
                 self.P.rectypes.append(rt)
                 self.alltypes.append(rt)
+        if feat.adts and ch.bool(0.35):
+            nb = ch.int(2, 3)
+            branches = []
+            for j in range(nb):
+                k = 0 if (j == nb - 1 and ch.bool(0.6)) else ch.int(1, 2)
+                branches.append(("Br0x%d" % j, [ch.choice(self.alltypes) for _ in range(k)]))
+            at = AdtT("Adt0", branches)
+            self.P.rectypes.append(at)
+            self.alltypes.append(at)
 
     def pick_type(self, prefer=None):
         ch = self.ch
@@ -299,7 +338,7 @@ class Gen:
             if allow_wild:
                 opts.append((1, "wild"))
             if isinstance(ty, RecT) and allow_new:
-                opts.append((2, "destruct"))
+                opts.append((3 if isinstance(ty, AdtT) else 2, "destruct"))
             k = ch.weighted(opts)
             if k == "new":
                 v = self.fresh(ty)
@@ -318,10 +357,14 @@ class Gen:
     def gen_destruct(self, ty, env, depth):
         ch = self.ch
         sub = []
-        for ft in ty.fields:
+        fields = ty.fields
+        branch = None
+        if isinstance(ty, AdtT):
+            branch, fields = ch.choice(ty.branches)
+        for ft in fields:
             key = tname(ft)
             k = ch.weighted([(5, "new"), (2, "old" if env.get(key) else "new"), (1, "const"), (1, "wild")])
-            if isinstance(ft, RecT) and depth < 1 and ch.bool(0.3):
+            if isinstance(ft, RecT) and not isinstance(ft, AdtT) and depth < 1 and ch.bool(0.3):
                 sub.append(self.gen_destruct(ft, env, depth + 1))
             elif k == "new":
                 v = self.fresh(ft)
@@ -333,6 +376,8 @@ class Gen:
                 sub.append(Const(gen_value(ch, ft, self.feat, small_only=True), ft))
             else:
                 sub.append(Wild(ft))
+        if branch is not None:
+            return AdtInit(branch, sub, ty)
         return RecInit(sub, ty)
 
     def gen_expr(self, ty, env, depth, allow_fn=True):
@@ -340,6 +385,11 @@ class Gen:
         ch, feat = self.ch, self.feat
         key = tname(ty)
         bound = env.get(key, [])
+        if isinstance(ty, AdtT):
+            if bound and ch.bool(0.6):
+                return ch.choice(bound)
+            bname, ftys = ch.choice(ty.branches)
+            return AdtInit(bname, [self.gen_expr(ft, env, depth + 1, allow_fn) for ft in ftys], ty)
         if isinstance(ty, RecT):
             if bound and ch.bool(0.6):
                 return ch.choice(bound)
@@ -555,6 +605,10 @@ class Gen:
                 kinds.append((2, "bind"))
             if feat.aggregates and lower:
                 kinds.append((2, "agg"))
+            if feat.ranges:
+                kinds.append((2, "range"))
+            if feat.disjunctions and feat.constraints:
+                kinds.append((2, "or"))
             if not kinds:
                 break
             k = ch.weighted(kinds)
@@ -575,12 +629,42 @@ class Gen:
                             z = self.fresh(ty)
                             lit = Cmp("=", z, e, ty) if ch.bool(0.7) else Cmp("=", e, z, ty)
                             env.setdefault(ty, []).append(z)
+            elif k == "range":
+                # (number only: for an unsigned variable bound solely by range() over untyped constants the overload resolution
+                # of min/max reports "no valid overloads" -- a limitation of type inference, outside the properties here)
+                ty = NUMBER
+                if NUMBER not in self.base:
+                    continue
+                lo = ch.int(-3, 4)
+                n = ch.int(0, 5)
+                step = ch.int(1, 3)
+                args = [Const(lo, ty), Const(lo + n, ty)] + ([Const(step, ty)] if ch.bool(0.4) else [])
+                if ty == NUMBER and ch.bool(0.25):
+                    # descending range
+                    args = [Const(lo + n, ty), Const(lo, ty)] + ([Const(-step, ty)] if len(args) == 3 else [])
+                z = self.fresh(ty)
+                lit = Cmp("=", z, Fn("range", args, ty), ty)
+                env.setdefault(ty, []).append(z)
+            elif k == "or":
+                alts = []
+                for _a in range(ch.int(2, 3)):
+                    conj = [c for c in (self.gen_cmp(env) for _c in range(ch.int(1, 2))) if c is not None]
+                    if conj:
+                        alts.append(conj)
+                if len(alts) >= 2:
+                    lit = Or(alts)
             elif k == "agg":
                 # at most one aggregate with a non-variable target per clause: two of them make
                 # SimplifyAggregateTargetExpression pick the same fresh name and the translator asserts (F16, owned by C14)
                 # aggregates of one clause mention disjoint sets of outer variables: souffle's "Mutually dependent
                 # aggregate" heuristic rejects e.g. `count:{e(x), x != y}, count:{e(y), y != x}` with x, y outer (F19, C13)
                 env_agg = {k: [v for v in vs if v.name not in agg_outer_used] for k, vs in env_atoms.items()}
+                if rec_rule:
+                    # known finding F25 (C01): an outer variable injected into a multi-literal aggregate body inside a recursive
+                    # rule makes the materialised aggregate sub-clause depend on the recursive relation itself; souffle then
+                    # evaluates the aggregate over a partial relation. No injection in recursive rules (counted via the tag).
+                    env_agg = {}
+                    self.P.tags.add("F25_excluded")
                 r = self.gen_agg(env_agg, lower, allow_complex=not complex_used)
                 if r is not None:
                     lit, z = r
@@ -607,6 +691,8 @@ class Gen:
             else:
                 hargs.append(self.gen_expr(ty, env, 0, allow_fn=allow_fn))
         rule = Rule(Atom(head_rel.name, hargs), body)
+        if feat.multihead and hargs and ch.bool(0.15):
+            rule.extra_heads.append(Atom(head_rel.name, [self.gen_expr(ty, env, 0, allow_fn=allow_fn) for ty in head_rel.types]))
         rule.order = ch.shuffle(list(range(len(body)))) if ch.bool(0.6) else list(range(len(body)))
         if rec_rule:
             rule.tags.add("rec")
@@ -645,6 +731,10 @@ def term_vars(t, acc=None):
     elif isinstance(t, Cmp):
         term_vars(t.lhs, acc)
         term_vars(t.rhs, acc)
+    elif isinstance(t, Or):
+        for alt in t.alts:
+            for l in alt:
+                term_vars(l, acc)
     return acc
 
 
@@ -656,6 +746,11 @@ def generate(ch, feat=None):
 # printing
 
 def fmt_const(v, ty, in_file=False):
+    if isinstance(ty, AdtT):
+        ftys = dict(ty.branches)[v[0][1:]]
+        if not ftys:
+            return v[0] if in_file else v[0] + "()"
+        return "%s(%s)" % (v[0], ", ".join(fmt_const(x, ft, in_file) for x, ft in zip(v[1:], ftys)))
     if isinstance(ty, RecT):
         if v is None:
             return "nil"
@@ -682,6 +777,8 @@ def fmt_term(t):
         return s
     if isinstance(t, Wild):
         return "_"
+    if isinstance(t, AdtInit):
+        return "$%s(%s)" % (t.branch, ", ".join(fmt_term(a) for a in t.args))
     if isinstance(t, RecInit):
         return "[" + ", ".join(fmt_term(a) for a in t.args) + "]"
     if isinstance(t, Fn):
@@ -707,11 +804,13 @@ def fmt_lit(l):
         return "!" + fmt_lit(l.atom)
     if isinstance(l, Cmp):
         return "%s %s %s" % (fmt_term(l.lhs), l.op, fmt_term(l.rhs))
+    if isinstance(l, Or):
+        return "(" + " ; ".join(", ".join(fmt_lit(x) for x in alt) for alt in l.alts) + ")"
     raise TypeError(l)
 
 
 def fmt_rule(r):
-    head = fmt_lit(r.head)
+    head = ", ".join(fmt_lit(h) for h in [r.head] + list(getattr(r, "extra_heads", ())))
     if not r.body:
         return head + "."
     s = "%s :- %s." % (head, ", ".join(fmt_lit(r.body[i]) for i in r.order))
@@ -733,6 +832,10 @@ def to_souffle(P, with_io=True):
     """returns (program text, {facts file name: text})"""
     out = []
     for rt in P.rectypes:
+        if isinstance(rt, AdtT):
+            out.append(".type %s = %s" % (rt.name, " | ".join("%s {%s}" % (b, ", ".join("f%d:%s" % (i, tname(t)) for i, t in enumerate(fts)))
+                                                               for b, fts in rt.branches)))
+            continue
         out.append(".type %s = [%s]" % (rt.name, ", ".join("f%d:%s" % (i, tname(t)) for i, t in enumerate(rt.fields))))
     facts = {}
     for n in P.order:
@@ -911,6 +1014,8 @@ def copy_term(t, ren):
         return Wild(t.ty)
     if isinstance(t, Fn):
         return Fn(t.op, [copy_term(a, ren) for a in t.args], t.ty, t.oty)
+    if isinstance(t, AdtInit):
+        return AdtInit(t.branch, [copy_term(a, ren) for a in t.args], t.ty)
     if isinstance(t, RecInit):
         return RecInit([copy_term(a, ren) for a in t.args], t.ty)
     if isinstance(t, Agg):
@@ -926,6 +1031,8 @@ def copy_lit(l, ren):
         return Neg(copy_lit(l.atom, ren))
     if isinstance(l, Cmp):
         return Cmp(l.op, copy_term(l.lhs, ren), copy_term(l.rhs, ren), l.ty)
+    if isinstance(l, Or):
+        return Or([[copy_lit(x, ren) for x in alt] for alt in l.alts])
     raise TypeError(l)
 
 
@@ -935,6 +1042,11 @@ def copy_rule(r, ren=lambda n: n, head_rel=None):
         h.rel = head_rel
     nr = Rule(h, [copy_lit(l, ren) for l in r.body], list(r.order))
     nr.tags = set(r.tags)
+    for eh in getattr(r, "extra_heads", ()):
+        e2 = copy_lit(eh, ren)
+        if head_rel:
+            e2.rel = head_rel
+        nr.extra_heads.append(e2)
     return nr
 
 
@@ -956,7 +1068,7 @@ def alt_spelling(ch, v, ty):
 
 
 import re as _re
-_IDENT = _re.compile(r'"[^"]*"|\b(?:e|r|q|Rec)\d+\b')
+_IDENT = _re.compile(r'"[^"]*"|\b(?:e|r|q|Rec|Adt)\d+\b|\bBr\d+x\d+\b')
 
 
 def prefix_program(text, facts, pfx):
